@@ -101,6 +101,22 @@ Theorem C45_split_partial : forall (kt : bool) (lead : str) (a0 : atom) (rest : 
 Proof. exact split_partial. Qed.
 Print Assumptions C45_split_partial.
 
+(* Same for a line ending in an unclosed quote: everything after the opening quote, white space
+   included, is one part (passed on with its quote character, unquote does not strip it). *)
+Theorem C45_split_partial_unclosed : forall (kt : bool) (lead : str) (a0 : atom) (rest : list (str * atom))
+    (sep : str) (q : char) (body : str),
+  line_ok lead a0 rest [] = true -> sep_ok sep = true -> is_quote q = true -> in_chars q body = false ->
+  let line := lead ++ atom_text a0 ++ tail_text rest (sep ++ q :: body) in
+  kt = true \/ no_tab line = true ->
+  exists parts,
+    parse_partial kt line = PPOk parts
+    /\ nonspace_values parts = spec_words line
+    /\ nonspace_values parts = atom_text a0 :: map (fun it => atom_text (snd it)) rest ++ [q :: body]
+    /\ execute_call kt line
+       = CallStrings (atom_value a0) (map (fun it => atom_value (snd it)) rest ++ [q :: body]).
+Proof. exact split_unclosed. Qed.
+Print Assumptions C45_split_partial_unclosed.
+
 (* Arguments are also split where there is no white space (quote boundaries) ... *)
 Theorem C45_split_refuted_adjacent :
   exists line parts, no_tab line = true
